@@ -122,6 +122,36 @@ def run(ctx):
         cs = {norm_fn(c) for c in pv.callees()}
         ok = AM + "::get_heads" in cs and any(c.endswith("to_vec") for c in cs) and bool(heads_param) and pv.depends_on_param(heads_param[0])
         ctx.ob("R9-meta", "transaction_args|deps = heads argument or current heads", ok, s["sp"], "sources %s" % sorted(c.split("::")[-1] for c in cs))
+    # isolated transactions depend on exactly the given heads: the current-heads branch is unreachable when heads are given
+    if heads_param:
+        none_edges = []
+        for sb, sw in tb.switches():
+            src = tb.bool_operand_source(sw["op"])
+            if src and src["kind"] == "discr" and src["origin"][0] == heads_param[0] and not src["origin"][1]:
+                vals = src.get("vars") or {}
+                hit = [t_ for v, t_ in sw["targets"] if vals.get(v) == "None"]
+                some = [t_ for v, t_ in sw["targets"] if vals.get(v) == "Some"]
+                if hit:
+                    none_edges.append((sb, hit[0]))
+                elif some:
+                    none_edges.append((sb, sw["otherwise"]))
+        cur = [(bi, t) for bi, t in tb.calls() if callee(t) in (AM + "::get_heads", AM + "::get_hash")]
+        ctx.floor("current-heads reads in transaction_args", len(cur), 2)
+        for k, (bi, t) in util.ordinal_keys(cur, lambda it: "transaction_args|%s only without isolation heads" % callee(it[1]).split("::")[-1]):
+            ok = bool(none_edges) and tb.edges_dominate(none_edges, bi)
+            ctx.ob("R9-meta", k, ok, t["sp"], "reached only when heads is None" if ok else "the non-isolated dependency computation is reachable although isolation heads were given (the change would also depend on current heads / the actor's previous change)")
+    # on load, the graph's max_op derives from a traversal of the whole max_op column, not from a single element
+    lb = ctx.body("automerge::change_graph::ChangeGraphCols::load")
+    for blk in lb.blocks:
+        for s in blk["st"]:
+            rv = s["rv"]
+            if rv["k"] == "Agg" and rv.get("adt") == CG and "max_op" in rv.get("fields", []):
+                pv = lb.provenance(rv["o"][rv["fields"].index("max_op")], through_calls=True)
+                cs = {norm_fn(c) for c in pv.callees()}
+                trav = any(c.endswith(("::iter", "::into_iter", "IntoIterator::into_iter")) for c in cs)
+                single = any(c.endswith(("::last", "::first", "::get", "::pop")) for c in cs)
+                ctx.ob("R9-meta", "ChangeGraphCols::load|max_op from the whole max_op column", trav and not single, s["sp"],
+                       "derived through a traversal" if trav and not single else "graph max_op is taken from a single stored change (%s): start_op of the next local change may not exceed every applied op" % sorted(c.split("::")[-1] for c in cs)[:6])
     # the actor's previous change is pushed onto deps (non-isolated), from get_hash(actor_index, seq-1)
     pushes = [(bi, t) for bi, t in tb.calls() if norm_fn(t.get("fn")) == "alloc::vec::Vec::push" and "ChangeHash" in t["argtys"][0]]
     ctx.floor("deps.push in transaction_args", len(pushes), 1)
